@@ -173,10 +173,10 @@ PROPS = {
     ),
     "C15": dict(
         level="exploration",
-        rule="rapid-generated writer scripts (10-160 mutating calls: whole-generation syncs, refilters toggling between accept-all and a label filter, single-object updates) over 1-6 objects with 1-12 concurrent reader goroutines doing List/Get; every read must equal the scripted cache content at some call index between the writer's finished-counter read before and started-counter read after the call, indices per reader never decrease, returned slices are scribbled over; built with -race (a race report fails the check). Non-trivial = >= 4 readers, >= 50 writer calls and >= 1 refilter; distinct = (objects, readers, script).",
+        rule="rapid-generated writer scripts (10-160 mutating calls: whole-generation syncs, refilters toggling between accept-all and a label filter, single-object updates) over 1-6 objects with 1-12 concurrent reader goroutines doing List/Get; every read must equal the scripted cache content at some call index between the writer's finished-counter read before and started-counter read after the call, indices per reader never decrease, returned slices are scribbled over; built with -race (a race report fails the check); plus the same oracle through the public API: a controller whose watch never connects is moved through generations by gated relists (2-200 objects) while readers list Controller.Cache(). Non-trivial = >= 4 readers, >= 50 writer calls and >= 1 refilter; distinct = (objects, readers, script).",
         assumptions=["schedules are whatever the Go scheduler produces under -race with reader-side yields and GOMAXPROCS in {2,4,8,16}; not enumerated", "cache driven through the add-only hook NewVerifCache"],
-        quick=[J("TestC15_Snapshots", checks=700, shards=4, race=True, procs=[2, 4, 8, 16])],
-        thorough=[J("TestC15_Snapshots", checks=5000, shards=16, race=True, procs=[1, 2, 4, 8, 16], timeout=1800)],
+        quick=[J("TestC15_Snapshots", checks=700, shards=4, race=True, procs=[2, 4, 8, 16]), J("TestC15_ControllerRelists", checks=250, shards=3, race=True, procs=[2, 4, 16])],
+        thorough=[J("TestC15_Snapshots", checks=5000, shards=16, race=True, procs=[1, 2, 4, 8, 16], timeout=1800), J("TestC15_ControllerRelists", checks=4000, shards=8, race=True, procs=[1, 2, 4, 16], timeout=1800)],
     ),
     "C01": dict(
         level="exploration",
